@@ -107,6 +107,9 @@ pub struct Acc {
     pub aborted: u64,
     pub nontrivial: u64,
     pub signatures: BTreeSet<u64>,
+    /// digests of the recorded schedules / client-visible histories (distinct interleavings)
+    pub schedules: BTreeSet<u64>,
+    pub histories: BTreeSet<u64>,
     pub sums: BTreeMap<String, u64>,
     pub probes: BTreeMap<String, u64>,
     pub strategies: BTreeMap<String, u64>,
@@ -130,6 +133,8 @@ impl Acc {
         self.aborted += o.aborted;
         self.nontrivial += o.nontrivial;
         self.signatures.extend(o.signatures);
+        self.schedules.extend(o.schedules);
+        self.histories.extend(o.histories);
         for (k, v) in o.sums {
             *self.sums.entry(k).or_insert(0) += v;
         }
@@ -247,6 +252,9 @@ pub fn write_evidence(spec: &EvidenceSpec, acc: &Acc) {
         "runs_completed": acc.completed,
         "runs_aborted_by_other_findings": acc.aborted,
         "nontrivial_runs": acc.nontrivial,
+        "distinct_schedules": acc.schedules.len(),
+        "distinct_client_histories": acc.histories.len(),
+        "distinct_measure": "distinct_nontrivial = distinct coverage signatures (see rule); distinct_schedules = distinct digests of the complete recorded task-choice sequence; distinct_client_histories = distinct digests of the client-visible operation/result history",
         "runs_per_hour": runs_per_hour,
         "evaluations_per_hour": evals_per_hour,
         "seeds_sample": acc.seeds,
